@@ -736,3 +736,66 @@ pub fn edge_driver(out: &str, seed: u64, n: u64) {
     eprintln!("edge driver: {} scenarios, {} bankruptcies ok, {} banks killed, {} accounts closed, {} utilization boundaries, {} events", n, nbk, nkill, nclose, nutil, r.events);
     r.finish();
 }
+
+// ------------------------------------------------------------------------------------------------
+// kill driver (C07 C13): a bank wiped out by bad debt (the sole borrower drew every deposited token, empty insurance) is in the
+// killed-by-bankruptcy state; the admin then asks for every operational state in every order of two (a detour through paused
+// or reduce-only first), probing with a deposit and a borrow after each request; other admin reconfigurations of the dead
+// bank (weights, limits) go on; a second bank of the group stays untouched.
+// ------------------------------------------------------------------------------------------------
+pub fn kill_driver(out: &str, seed: u64, n: u64) {
+    let mut rng = StdRng::seed_from_u64(seed ^ 0x6b11);
+    let mut r = Recorder::new(&format!("{}/kill.trace", out), base_setup());
+    let mut nkill = 0u64;
+    for k in 0..n {
+        let dec = *pick(&mut rng, &[6u8, 9, 2]);
+        let x: u64 = *pick(&mut rng, &[1_000_000u64, 123_456_789, 7, 50_000_000_000]);
+        let mut extra = vec![];
+        plain_bank("D1", dec, "spl", "1", json!({"ir":{"orig_fee":"0"}}), &mut extra);
+        plain_bank("C1", 6, "spl", "1", json!({"aw_init":"1","aw_maint":"1"}), &mut extra);
+        extra.push(json!({"op":"fund","user":"U9","mint":"M.D1","amount":"4000000000000000000"}));
+        extra.push(json!({"op":"fund","user":"U2","mint":"M.D1","amount":"4000000000000000000"}));
+        extra.push(json!({"op":"fund","user":"U1","mint":"M.C1","amount":"4000000000000000000"}));
+        r.begin(&extra);
+        r.act(json!({"op":"deposit","acct":"LP","bank":"D1","amount":x}));
+        let need: u128 = (x as u128) * 10u128.pow(6) / 10u128.pow(dec as u32) * 4 + 10_000_000;
+        r.act(json!({"op":"deposit","acct":"A1","bank":"C1","amount":need.to_string()}));
+        r.act(json!({"op":"borrow","acct":"A1","bank":"D1","amount":x}));
+        r.act(json!({"op":"set_fixed_price","bank":"C1","price":"1/100000000000"}));
+        r.act(json!({"op":"bankruptcy","acct":"A1","bank":"D1"}));
+        let killed = r.ex.bank("D1").map(|b| b.config.operational_state as u8 == 3).unwrap_or(false);
+        if !killed {
+            continue;
+        }
+        nkill += 1;
+        let probe = |r: &mut Recorder| {
+            r.act(json!({"op":"deposit","acct":"LP","bank":"D1","amount":1000}));
+            r.act(json!({"op":"borrow","acct":"A2","bank":"D1","amount":1}));
+        };
+        // every request alone, and every ordered pair of requests (recorded side branches)
+        let states = [0u64, 1, 2, 3];
+        let first = states[(k % 4) as usize];
+        for s1 in states {
+            r.fork(&mut |r: &mut Recorder| {
+                r.act(json!({"op":"configure_bank","bank":"D1","cfg":{"op_state":s1}}));
+                probe(r);
+                for s2 in states {
+                    if s2 != s1 && (s1 == first || s2 == 1) {
+                        r.fork(&mut |r: &mut Recorder| {
+                            r.act(json!({"op":"configure_bank","bank":"D1","cfg":{"op_state":s2}}));
+                            probe(r);
+                        });
+                    }
+                }
+            });
+        }
+        // the state riding along with other fields, by the admin and by a stranger
+        r.act(json!({"op":"configure_bank","bank":"D1","cfg":{"op_state":0,"deposit_limit":"1000000000000"}}));
+        r.act(json!({"op":"configure_bank","bank":"D1","cfg":{"op_state":2},"signer":"stranger"}));
+        r.act(json!({"op":"configure_bank","bank":"D1","cfg":{"deposit_limit":"1000000000000"}}));
+        probe(&mut r);
+        r.act(json!({"op":"withdraw","acct":"LP","bank":"D1","amount":0,"all":true}));
+    }
+    eprintln!("kill driver: {} scenarios, {} banks killed, {} events", n, nkill, r.events);
+    r.finish();
+}
